@@ -31,6 +31,7 @@ doubles; such points are stored as `(0,0)`) -/
 structure VSeq where
   pts : List Pt
   bad : Option Nat := none
+  fin : List Bool := []          -- per-point finiteness (`[]` = all finite); used by the repair contract (C17)
 deriving Repr, Inhabited
 
 inductive VG where
